@@ -592,8 +592,18 @@ func (c *Ctx) lockRules(guarded map[*types.Named]bool) {
 						}
 					}
 				}
-				if _, fresh := stored.(*ssa.MakeMap); !fresh {
-					late = append(late, "the published map is not a map freshly made in this function")
+				fresh := false
+				switch x := stored.(type) {
+				case *ssa.MakeMap:
+					fresh = true
+				case *ssa.Call:
+					// built by a helper that returns a map it made itself and keeps no reference to
+					if g := x.Call.StaticCallee(); g != nil && c.inModule(g) && c.effects().returnsFresh(g) {
+						fresh = true
+					}
+				}
+				if !fresh {
+					late = append(late, "the published map is not a map freshly made in this function (or by a helper that returns a fresh map)")
 				}
 				if len(late) > 0 {
 					c.fail("ISO-PUBLISH", c.fname(fn), "map published to "+where, ins.Pos(), "the map is modified after it was published under the lock (readers use it outside the lock): "+strings.Join(late, ", "))
